@@ -43,6 +43,8 @@ enum Step {
     Import { t: usize, a: usize, n: usize, bodyless_mask: u32, wait: bool },
     Drain { t: usize },
     Ack { t: usize },
+    /// every delivered, not yet acked operation of the topic is acked CONCURRENTLY (join_all)
+    AckMany { t: usize },
     Sleep,
 }
 
@@ -53,6 +55,7 @@ impl Step {
             Step::Import { t, a, n, bodyless_mask, wait } => format!("{}{}.{}.{}.{}", if *wait { 'I' } else { 'J' }, t, a, n, bodyless_mask),
             Step::Drain { t } => format!("D{t}"),
             Step::Ack { t } => format!("A{t}"),
+            Step::AckMany { t } => format!("K{t}"),
             Step::Sleep => "W".into(),
         }
     }
@@ -67,6 +70,7 @@ impl Step {
             }
             'D' => Some(Step::Drain { t: rest.parse().ok()? }),
             'A' => Some(Step::Ack { t: rest.parse().ok()? }),
+            'K' => Some(Step::AckMany { t: rest.parse().ok()? }),
             'W' => Some(Step::Sleep),
             _ => None,
         }
@@ -103,6 +107,17 @@ fn foreign_operation(key: &SigningKey, topic: Topic, seq: u64, backlink: Option<
     header.sign(key);
     let hash = header.hash();
     Operation { hash, header, body }
+}
+
+/// Durable side record of every explicit `ack()` call that RETURNED (appended and synced before the child goes on):
+/// `ok <hash>` / `err <hash>`.
+fn record_ack(db: &Path, hash: &str, ok: bool) {
+    use std::io::Write;
+    let path = db.with_extension("acks");
+    if let Ok(mut f) = std::fs::OpenOptions::new().create(true).append(true).open(path) {
+        let _ = writeln!(f, "{} {}", if ok { "ok" } else { "err" }, hash);
+        let _ = f.sync_all();
+    }
 }
 
 // ------------------------------------------------------------------------------------------------
@@ -173,7 +188,16 @@ async fn child_run(file: PathBuf, policy: AckPolicy, steps: Vec<Step>, crash_aft
                 if !unacked[*t].is_empty() {
                     let idx = if unacked[*t].len() > 1 && counter % 3 == 0 { 1 } else { 0 };
                     let op = unacked[*t].remove(idx);
-                    let _ = op.ack().await;
+                    let r = op.ack().await;
+                    record_ack(&file, &op.id().to_hex(), r.is_ok());
+                }
+            }
+            Step::AckMany { t } => {
+                // the application acks everything it has seen at once (different authors' operations in flight together)
+                let ops = std::mem::take(&mut unacked[*t]);
+                let results = futures::future::join_all(ops.iter().map(|o| o.ack())).await;
+                for (o, r) in ops.iter().zip(results) {
+                    record_ack(&file, &o.id().to_hex(), r.is_ok());
                 }
             }
             Step::Sleep => tokio::time::sleep(Duration::from_millis(15)).await,
@@ -394,6 +418,28 @@ fn one_case(rt: &tokio::runtime::Runtime, dir: &Path, policy: AckPolicy, steps: 
         let ans = format!("{} | {}", delivered.join(" "), cur_after_txt.join(" "));
         // ---- oracle: the two predicates of the property, directly on the real sets
         let mut fails = vec![];
+        // explicit acks that returned before the crash (recorded by the child, independent of cursors_v1)
+        let acks_txt = std::fs::read_to_string(file.with_extension("acks")).unwrap_or_default();
+        for line in acks_txt.lines() {
+            let mut it = line.split(' ');
+            let (status, hash) = (it.next().unwrap_or(""), it.next().unwrap_or(""));
+            if status == "err" && rid.contains_key(hash) {
+                fails.push(("ack-returned-error".to_string(), format!("{crash_label}: ack() of operation {} returned an error", rid[hash])));
+            }
+            if status == "ok" && delivered_hashes.iter().any(|h| h == hash) {
+                let r = rows.iter().find(|r| r.hash == hash);
+                fails.push((
+                    "acked-redelivered".to_string(),
+                    format!(
+                        "{crash_label}: ack() of operation {} (author {:?}, seq {:?}) returned Ok before the crash, persisted cursor of that author is {:?}, and the operation was delivered again after the restart",
+                        rid.get(hash).map(|i| i.to_string()).unwrap_or_default(),
+                        r.map(|r| aid(&r.author)),
+                        r.map(|r| r.seq),
+                        r.and_then(|r| cur.get(&r.author))
+                    ),
+                ));
+            }
+        }
         if extra != "-" {
             fails.push(("replay-irregular".to_string(), format!("reopen reported {extra}")));
         }
@@ -479,7 +525,7 @@ fn random_scenario(rng: &mut Rng, ntopics: usize) -> Vec<Step> {
         };
         steps.push(s.clone());
         if matches!(s, Step::Drain { .. }) && rng.chance(1, 2) {
-            steps.push(Step::Ack { t });
+            steps.push(if rng.chance(1, 3) { Step::AckMany { t } } else { Step::Ack { t } });
         }
     }
     steps
@@ -562,6 +608,13 @@ fn main() {
             (AckPolicy::Explicit, vec![Step::Publish { t: 1, wait: true }, Step::Drain { t: 1 }, Step::Ack { t: 1 }, Step::Publish { t: 1, wait: true }]),
             (AckPolicy::Automatic, vec![Step::Import { t: 0, a: 0, n: 2, bodyless_mask: 2, wait: true }, Step::Publish { t: 0, wait: true }]),
         ];
+        v.push((AckPolicy::Explicit, vec![
+            Step::Import { t: 0, a: 0, n: 1, bodyless_mask: 0, wait: true },
+            Step::Import { t: 0, a: 1, n: 1, bodyless_mask: 0, wait: true },
+            Step::Publish { t: 0, wait: true },
+            Step::Drain { t: 0 },
+            Step::AckMany { t: 0 },
+        ]));
         if args.tier != Tier::Quick {
             v.push((AckPolicy::Automatic, vec![Step::Publish { t: 0, wait: false }, Step::Publish { t: 1, wait: false }, Step::Import { t: 1, a: 1, n: 3, bodyless_mask: 1, wait: true }, Step::Publish { t: 0, wait: true }]));
             v.push((AckPolicy::Explicit, vec![Step::Import { t: 0, a: 0, n: 1, bodyless_mask: 0, wait: true }, Step::Publish { t: 0, wait: true }, Step::Drain { t: 0 }, Step::Ack { t: 0 }, Step::Ack { t: 0 }, Step::Publish { t: 0, wait: true }]));
@@ -598,7 +651,16 @@ fn main() {
             emit(&mut out, res, &format!("commit-crash:{}", policy_word(*policy)));
         }
     }
+    let concurrent_acks = vec![
+        Step::Import { t: 0, a: 0, n: 1, bodyless_mask: 0, wait: true },
+        Step::Import { t: 0, a: 1, n: 2, bodyless_mask: 0, wait: true },
+        Step::Publish { t: 0, wait: true },
+        Step::Drain { t: 0 },
+        Step::AckMany { t: 0 },
+        Step::Sleep,
+    ];
     let mut scenarios = fixed;
+    scenarios.push((AckPolicy::Explicit, concurrent_acks.clone()));
     for _ in 0..nscen {
         let policy = if rng.chance(1, 2) { AckPolicy::Automatic } else { AckPolicy::Explicit };
         scenarios.push((policy, random_scenario(&mut rng, ntopics)));
@@ -617,7 +679,7 @@ fn main() {
     }
     let _ = std::fs::remove_dir_all(&scratch);
     out.finish(
-        "scenarios of publish (awaiting processing or not) / import of foreign operations (some body-less) / drain / explicit ack / sleep over 2 topics and up to 3 authors, automatic and explicit ack policy; a child process runs the first k steps on a file-backed SQLite database and abort()s, for EVERY k (plus one graceful drop per scenario); in addition, for small scenarios (first publish in a topic, publish + explicit ack, import) a dry run counts the committed store transactions and one child per commit index aborts INSIDE the commit hook right after that commit (every durable state of the scenario); a fresh node re-opens the file and replays from the frontier. one case = one topic of one (scenario, k). non-trivial = the persisted state holds an operation with a body above an existing cursor entry of its log (crash between store commit and ack, after an earlier ack in the same log)",
+        "scenarios of publish (awaiting processing or not) / import of foreign operations (some body-less) / drain / explicit ack / CONCURRENT explicit acks of several authors' operations (join_all; every ack() that returned Ok is recorded durably by the child and must never be delivered again) / sleep over 2 topics and up to 3 authors, automatic and explicit ack policy; a child process runs the first k steps on a file-backed SQLite database and abort()s, for EVERY k (plus one graceful drop per scenario); in addition, for small scenarios (first publish in a topic, publish + explicit ack, import) a dry run counts the committed store transactions and one child per commit index aborts INSIDE the commit hook right after that commit (every durable state of the scenario); a fresh node re-opens the file and replays from the frontier. one case = one topic of one (scenario, k). non-trivial = the persisted state holds an operation with a body above an existing cursor entry of its log (crash between store commit and ack, after an earlier ack in the same log)",
         false,
     );
 }
